@@ -68,6 +68,17 @@ Theorem C15_find_neighbors_symmetric : forall img : image, rect img ->
 Proof. exact find_neighbors_symmetric. Qed.
 Print Assumptions C15_find_neighbors_symmetric.
 
+(* ---- color_labels (Full): coloring_proper + coloring_uniform_per_label.  The output is the image
+   mapped through a function g of the label (all pixels of a label one colour), g 0 = 0
+   (background), every label 1..max gets a colour >= 1, and two different labels with 8-adjacent
+   pixels get different colours ---- *)
+Theorem C15_coloring_proper : forall img : image, rect img -> exists g : Z -> Z,
+  color_labels img = map (map g) img /\ g 0 = 0 /\
+  (forall l, 1 <= l <= img_max img -> 1 <= g l) /\
+  (forall l m, 1 <= l <= img_max img -> 1 <= m <= img_max img -> l <> m -> touching img l m -> g l <> g m).
+Proof. exact coloring_proper. Qed.
+Print Assumptions C15_coloring_proper.
+
 (* ---- color_labels: the first-free-colour rule never returns a colour of a neighbour ---- *)
 Theorem C15_first_free_spec : forall colors k,
   StronglySorted Z.lt colors -> (forall c, In c colors -> k <= c) ->
